@@ -282,7 +282,7 @@ func checkBigCarriers(c *vm.Ctx, r *vm.Rand) {
 
 // checkStringifiedPositions: a StringifiedMessage obtained by decoding (any tag, not only compounds) must survive
 // Marshal -> Unmarshal unchanged at the root, as a struct field, as a list element and as a map value, in both formats.
-func checkStringifiedPositions(c *vm.Ctx, r *vm.Rand, g *nbtgen.G) {
+func checkStringifiedPositions(c *vm.Ctx, r *vm.Rand, g *nbtgen.G) (passed int) {
 	tree := g.Doc(0)
 	second := g.Value(tree.Tag, 3)
 	network := r.Bool()
@@ -340,10 +340,12 @@ func checkStringifiedPositions(c *vm.Ctx, r *vm.Rand, g *nbtgen.G) {
 			c.Violation(sub+"/roundtrip-mismatch/"+refnbt.TagName(tree.Tag), fmt.Sprintf("StringifiedMessage changed over Marshal/Unmarshal: %s -> %s", short(fmt.Sprintf("%q", reflect.ValueOf(v1).Elem().Interface())), short(fmt.Sprintf("%q", reflect.ValueOf(v2).Elem().Interface()))), wit2())
 			continue
 		}
+		passed++
 		c.Cover("snbt." + p.pos + ".roundtrip")
 		c.Cover("snbt.carried." + refnbt.TagName(tree.Tag))
 		if network {
 			c.Cover("snbt.network")
 		}
 	}
+	return passed
 }
